@@ -3,6 +3,7 @@ import Driver.PathFn
 import Rivia.Model.MemfsOps
 import Rivia.Spec.MemfsJudge
 import Rivia.Spec.Walk
+import Rivia.Spec.WalkFollow
 
 namespace Driver
 open Rivia Rivia.Memfs
@@ -175,13 +176,17 @@ open Rivia.Spec in
 def judgeCols (env : Env) (s s' : State) (op : Op) : String :=
   let travSpec : Option (String × String) := match op with
     | .entries p r =>
-      if r.follow then none else
       match absM env p s with
       | (.ok k, _) => (match entriesOf s k with
         | .ok (rootE, snap) =>
-          let es := Spec.entriesSpec snap r.opts rootE
           let cls := if r.contentsFirst && r.kind != 'a' then "contents_first_ignores_filter"
                      else if r.contentsFirst && r.min > 0 then "contents_first_min_depth_order" else "-"
+          if r.follow then
+            -- recursive walk specification with link following and loop detection (Spec/WalkFollow.lean)
+            let (es, err) := Spec.entriesSpecF snap r.opts rootE
+            some ("ok " ++ showVal op (.trav (es.map (·.path)) err) ++ " ## " ++ absDump (absS s), cls)
+          else
+          let es := Spec.entriesSpec snap r.opts rootE
           some ("ok " ++ showVal op (.trav (es.map (·.path)) none) ++ " ## " ++ absDump (absS s), cls)
         | _ => none)
       | _ => none
